@@ -192,7 +192,11 @@ FaultFreeStep == (IsStep /\ healInfo.on /\ healInfo.ff) =>
           LET b == reg'[Line.ev.block] IN
           /\ b.parent \in DOMAIN reg' /\ reg'[b.parent].view = b.view - 1 /\ b.qc = b.parent
           /\ Line.post.cview = (IF b.view > cfg.chain THEN b.view - cfg.chain ELSE 0)
-P_C05 == [][C05Step /\ FaultFreeStep]_vars
+\* the mechanism every bound above rests on ("a view lasts at most one timer period"): whatever a replica has just handled, its
+\* view timer is armed for the view it is in now (startTimeoutTimer was called in or after the last view change).  A replica whose
+\* timer is not armed for its view never leaves that view by itself.
+TimerStep == IsStep => Line.post.tv = Line.post.view
+P_C05 == [][C05Step /\ FaultFreeStep /\ TimerStep]_vars
 \* a panic inside a replica is never acceptable (reported under C10 when the harness targets it; here it
 \* discredits the run)
 NoPanic == [][IsStep => Line.panic = ""]_vars
